@@ -1075,3 +1075,83 @@ func isModuleType(t types.Type) bool {
 	n := namedOf(t)
 	return n != nil && n.Obj().Pkg() != nil && strings.HasPrefix(n.Obj().Pkg().Path(), modPath)
 }
+
+// countingLoopBound: `at` lies in the body of `for idx := 0; idx < len(X); idx++` (idx not
+// assigned in the body): returns X.
+func (fn *Func) countingLoopBound(at ast.Node, idx types.Object) ast.Expr {
+	info := fn.Info()
+	for c := ast.Node(at); c != nil; c = fn.Prog.parents[c] {
+		fs, ok := fn.Prog.parents[c].(*ast.ForStmt)
+		if !ok || fs.Body != c || fs.Cond == nil {
+			continue
+		}
+		init, ok := fs.Init.(*ast.AssignStmt)
+		if !ok || len(init.Lhs) != 1 || len(init.Rhs) != 1 || !isIdentObj(info, init.Lhs[0], idx) {
+			continue
+		}
+		if v, isC := constInt(info, init.Rhs[0]); !isC || v != 0 {
+			continue
+		}
+		post, ok := fs.Post.(*ast.IncDecStmt)
+		if !ok || post.Tok != token.INC || !isIdentObj(info, post.X, idx) {
+			continue
+		}
+		if len(fn.Assignments(idx)) != 2 {
+			continue // assigned in the body as well
+		}
+		be, ok := ast.Unparen(fs.Cond).(*ast.BinaryExpr)
+		if !ok || be.Op != token.LSS || !isIdentObj(info, be.X, idx) {
+			continue
+		}
+		bound := ast.Unparen(be.Y)
+		if id, ok := bound.(*ast.Ident); ok {
+			if def := fn.SingleDef(info.ObjectOf(id)); def != nil {
+				bound = ast.Unparen(def)
+			}
+		}
+		if call, ok := bound.(*ast.CallExpr); ok && isLenCall(info, call) {
+			return call.Args[0]
+		}
+	}
+	return nil
+}
+
+// InlineLocals: e with single-definition local variables whose definition is a pure
+// selector/accessor chain replaced by that definition (`vr := item.ValueExpr.Range()` …
+// `vr.ContainsPos(pos)` reads `item.ValueExpr.Range().ContainsPos(pos)`). The definition's
+// operands must not be re-assigned (single-definition locals, parameters, fields).
+func (fn *Func) InlineLocals(e ast.Expr, rounds int) ast.Expr {
+	info := fn.Info()
+	root := rootOf(fn)
+	for r := 0; r < rounds; r++ {
+		var target types.Object
+		var def ast.Expr
+		ast.Inspect(e, func(n ast.Node) bool {
+			if target != nil {
+				return false
+			}
+			id, ok := n.(*ast.Ident)
+			if !ok {
+				return true
+			}
+			v, ok := info.ObjectOf(id).(*types.Var)
+			if !ok || v.IsField() || v.Pkg() == nil || v.Parent() == v.Pkg().Scope() || root.isParam(v) || fn.isParam(v) {
+				return true
+			}
+			d := fn.SingleDef(v)
+			if d == nil {
+				return true
+			}
+			if !pureExpr(info, d) {
+				return true
+			}
+			target, def = v, d
+			return true
+		})
+		if target == nil {
+			return e
+		}
+		e = substExpr(e, target, def, info)
+	}
+	return e
+}
